@@ -138,6 +138,104 @@ func typeAliases(prog *ssa.Program) []string {
 	return notes
 }
 
+// GlueStruct holds the named struct types of the repository that the pinned tree does not have (and that were not
+// recognised as a renamed type). Embedded in a struct the pinned tree has, such a type is seen through: its fields
+// count as the outer struct's own (an.AsField, props.structFields) and the methods it promotes are analysed as the
+// outer type's methods, through the promotion wrappers below.
+var GlueStruct = map[string]bool{}
+
+// PromoWrapper holds the promotion wrappers (*T).M -> (*G).M(&t.g) for a glue struct G embedded in a repository
+// struct T that is not glue. They stand for T's method M and are normalised and analysed like source functions.
+var PromoWrapper = map[*ssa.Function]bool{}
+
+func glueStructs(prog *ssa.Program) {
+	base := map[string]bool{}
+	for _, l := range strings.Split(baselineFields, "\n") {
+		parts := strings.Split(strings.TrimSpace(l), "\t")
+		if len(parts) == 3 && !strings.HasPrefix(l, "#") {
+			base[parts[0]] = true
+		}
+	}
+	if len(base) == 0 {
+		return
+	}
+	for _, sp := range prog.AllPackages() {
+		if sp.Pkg == nil || !strings.HasPrefix(sp.Pkg.Path(), ModulePath) {
+			continue
+		}
+		for _, mem := range sp.Members {
+			tm, ok := mem.(*ssa.Type)
+			if !ok {
+				continue
+			}
+			named, ok := tm.Type().(*types.Named)
+			if !ok {
+				continue
+			}
+			if _, isStruct := named.Underlying().(*types.Struct); !isStruct {
+				continue
+			}
+			if strings.HasSuffix(prog.Fset.Position(named.Obj().Pos()).Filename, "_test.go") {
+				continue
+			}
+			key := sp.Pkg.Path() + "." + named.Obj().Name()
+			if _, renamed := TypeAlias[key]; !base[key] && !renamed {
+				GlueStruct[key] = true
+			}
+		}
+	}
+}
+
+func namedOfType(t types.Type) *types.Named {
+	if p, ok := t.(*types.Pointer); ok {
+		t = p.Elem()
+	}
+	n, _ := t.(*types.Named)
+	return n
+}
+
+func fullTypeName(n *types.Named) string {
+	if n == nil || n.Obj().Pkg() == nil {
+		return ""
+	}
+	return n.Obj().Pkg().Path() + "." + n.Obj().Name()
+}
+
+func promotionWrappers(prog *ssa.Program) []*ssa.Function {
+	var out []*ssa.Function
+	if len(GlueStruct) == 0 {
+		return nil
+	}
+	for fn := range ssautil.AllFunctions(prog) {
+		if !strings.HasPrefix(fn.Synthetic, "wrapper for ") || len(fn.Blocks) == 0 {
+			continue
+		}
+		recv := fn.Signature.Recv()
+		obj, _ := fn.Object().(*types.Func)
+		if recv == nil || obj == nil {
+			continue
+		}
+		declRecv := obj.Type().(*types.Signature).Recv()
+		if declRecv == nil {
+			continue
+		}
+		rn, dn := namedOfType(recv.Type()), namedOfType(declRecv.Type())
+		if rn == nil || dn == nil || rn == dn {
+			continue
+		}
+		if !strings.HasPrefix(fullTypeName(rn), ModulePath) || GlueStruct[fullTypeName(rn)] || !GlueStruct[fullTypeName(dn)] {
+			continue
+		}
+		if strings.HasSuffix(prog.Fset.Position(rn.Obj().Pos()).Filename, "_test.go") {
+			continue
+		}
+		PromoWrapper[fn] = true
+		out = append(out, fn)
+	}
+	sort.Slice(out, func(i, j int) bool { return out[i].String() < out[j].String() })
+	return out
+}
+
 // canonName is fn.String() with renamed receiver types put back.
 func canonName(fn *ssa.Function) string {
 	if a, ok := FuncAlias[fn]; ok {
@@ -230,6 +328,9 @@ var baselineSet = func() map[string]bool {
 				if len(parts) >= 3 {
 					baselineFullSig[name] = parts[2]
 				}
+				if len(parts) >= 4 {
+					baselineNames[name] = parts[3]
+				}
 			}
 			m[name] = true
 		}
@@ -238,6 +339,50 @@ var baselineSet = func() map[string]bool {
 }()
 
 var baselineSig = map[string]string{}
+
+// baselineNames: "recv,p1,p2|r1,r2" - the parameter names (receiver first) and named results of the pinned tree
+var baselineNames = map[string]string{}
+
+// ParamNames renders the names of fn's parameters and results in the form of the baseline table.
+func ParamNames(fn *ssa.Function) string {
+	var ps, rs []string
+	for _, p := range fn.Params {
+		ps = append(ps, p.Name())
+	}
+	res := fn.Signature.Results()
+	for i := 0; i < res.Len(); i++ {
+		rs = append(rs, res.At(i).Name())
+	}
+	return strings.Join(ps, ",") + "|" + strings.Join(rs, ",")
+}
+
+// canonParamNames puts the pinned tree's parameter and result names back on every function the table knows, so
+// that no rule can depend on what a parameter is called today.
+func canonParamNames(fns []*ssa.Function) int {
+	n := 0
+	for _, fn := range fns {
+		want, ok := baselineNames[canonName(fn)]
+		if !ok || want == ParamNames(fn) {
+			continue
+		}
+		parts := strings.SplitN(want, "|", 2)
+		if len(parts) != 2 {
+			continue
+		}
+		var ps, rs []string
+		if len(fn.Params) > 0 {
+			ps = strings.Split(parts[0], ",")
+		}
+		if fn.Signature.Results().Len() > 0 {
+			rs = strings.Split(parts[1], ",")
+		}
+		if len(ps) != len(fn.Params) || len(rs) != fn.Signature.Results().Len() {
+			continue // the signature changed: its names are taken as they are
+		}
+		n += ssa.VerifCanonNames(fn, ps, rs)
+	}
+	return n
+}
 var baselineFullSig = map[string]string{}
 
 // SigKey renders a signature without parameter names (renaming a parameter is not a different function).
@@ -326,6 +471,11 @@ func normalise(prog *ssa.Program) (map[*ssa.Function]bool, *ssa.VerifNorm, []str
 	fns := TopLevelSourceFuncs(prog)
 	renames := typeAliases(prog)
 	renames = append(renames, fieldAliases(prog)...)
+	glueStructs(prog)
+	wrappers := promotionWrappers(prog)
+	for _, w := range wrappers {
+		renames = append(renames, w.String()+": promoted from an embedded helper struct, analysed as the outer type's method")
+	}
 	// Renamed functions: a baseline function that no longer exists and exactly one new function with the same
 	// package, receiver and signature (parameter names aside), which in turn matches no other vanished function,
 	// is taken to be that function under a new name and gets its old name back for the rules.
@@ -333,6 +483,9 @@ func normalise(prog *ssa.Program) (map[*ssa.Function]bool, *ssa.VerifNorm, []str
 		present := map[string]bool{}
 		for _, fn := range fns {
 			present[canonName(fn)] = true
+		}
+		for _, w := range wrappers {
+			present[canonName(w)] = true
 		}
 		type cand struct{ fn *ssa.Function }
 		newBy := map[string][]*ssa.Function{} // owner + sig -> new functions
@@ -445,6 +598,9 @@ func normalise(prog *ssa.Program) (map[*ssa.Function]bool, *ssa.VerifNorm, []str
 			}
 		}
 	}
+	if k := canonParamNames(fns); k > 0 {
+		renames = append(renames, fmt.Sprintf("%d parameters or named results carry other names than in the pinned tree: seen under the pinned names", k))
+	}
 	glue := map[*ssa.Function]bool{}
 	for _, fn := range fns {
 		stress := os.Getenv("RIECHECK_STRESS_NORM") != "" && !fn.Object().Exported() // self-test of the normaliser: absorb every unexported function
@@ -468,6 +624,11 @@ func normalise(prog *ssa.Program) (map[*ssa.Function]bool, *ssa.VerifNorm, []str
 		ncall := 0
 		if n != nil {
 			for _, e := range n.In {
+				if e.Site != nil && !e.Site.Common().IsInvoke() && e.Site.Common().StaticCallee() == nil {
+					// a call of a function value: CHA links it to every function of that signature; whether this
+					// function's value is taken at all is decided exactly by the operand scan below
+					continue
+				}
 				if e.Site == nil || e.Site.Common().StaticCallee() != fn {
 					ok = false
 					why[fn] = "called dynamically (CHA) from " + e.Caller.Func.String()
@@ -478,7 +639,7 @@ func normalise(prog *ssa.Program) (map[*ssa.Function]bool, *ssa.VerifNorm, []str
 					why[fn] = "called through a closure value"
 					break
 				}
-				if syn := e.Caller.Func.Synthetic; syn != "" {
+				if syn := e.Caller.Func.Synthetic; syn != "" && !PromoWrapper[e.Caller.Func] {
 					// a pointer-receiver/promotion wrapper that nothing calls is no use of the method;
 					// a bound-method closure or thunk means the method's value is taken
 					if strings.HasPrefix(syn, "wrapper ") && len(e.Caller.In) == 0 {
@@ -540,6 +701,9 @@ func normalise(prog *ssa.Program) (map[*ssa.Function]bool, *ssa.VerifNorm, []str
 			continue // only ever seen through its callers
 		}
 		norm.Function(fn)
+	}
+	for _, w := range wrappers {
+		norm.Function(w)
 	}
 	if len(norm.Failures) > 0 {
 		return nil, nil, nil, fmt.Errorf("analysis normal form could not be established:\n  %s", strings.Join(norm.Failures, "\n  "))
